@@ -47,6 +47,12 @@ def expr(node, funcparams=()):
         return ('num', n)
     if isinstance(node, ast.Name):
         return ('var', node.id)
+    if isinstance(node, ast.Attribute) and isinstance(node.value, ast.Name):
+        if (node.value.id, node.attr) == ('np', 'pi') or (node.value.id, node.attr) == ('math', 'pi'):
+            return ('var', 'PI')
+        if node.value.id == 'self':
+            return ('var', node.attr.lstrip('_'))
+        raise Unsupported('attribute %s.%s' % (node.value.id, node.attr))
     if isinstance(node, ast.UnaryOp) and isinstance(node.op, ast.USub):
         return ('neg', expr(node.operand, funcparams))
     if isinstance(node, ast.BinOp):
@@ -70,7 +76,11 @@ def expr(node, funcparams=()):
             raise Unsupported('keyword arguments in call')
         if isinstance(f, ast.Attribute) and isinstance(f.value, ast.Name):
             key = (f.value.id, f.attr)
+            if key == ('np', 'where') and len(node.args) == 3:
+                return ('if', cond(node.args[0], funcparams), expr(node.args[1], funcparams), expr(node.args[2], funcparams))
             args = [expr(a, funcparams) for a in node.args]
+            if key == ('np', 'radians') and len(args) == 1:
+                return ('bin', '/', ('bin', '*', args[0], ('var', 'PI')), ('num', Fraction(180)))
             if key in FUN1 and len(args) == 1:
                 return ('call1', FUN1[key], args[0])
             if key in FUN2 and len(args) == 2:
@@ -96,6 +106,33 @@ def cond(node, funcparams=()):
     if isinstance(node, ast.Compare) and len(node.ops) == 1 and type(node.ops[0]) in CMP:
         return ('cmp', CMP[type(node.ops[0])], expr(node.left, funcparams), expr(node.comparators[0], funcparams))
     raise Unsupported('condition %s' % ast.dump(node))
+
+
+def prop(node, funcparams=()):
+    """boolean result expression -> proposition IR"""
+    if isinstance(node, ast.BinOp) and isinstance(node.op, ast.BitAnd):
+        return ('and', prop(node.left, funcparams), prop(node.right, funcparams))
+    if isinstance(node, ast.Name):
+        return ('var', node.id)
+    c = cond(node, funcparams)
+    return ('prop', c[1], c[2], c[3])
+
+
+def body_prop(stmts, funcparams=()):
+    """statement list ending in `return <comparison [& comparison]>` -> proposition IR with lets"""
+    if not stmts:
+        raise Unsupported('function body falls off without return')
+    s, rest = stmts[0], stmts[1:]
+    if isinstance(s, ast.Expr) and isinstance(s.value, ast.Constant) and isinstance(s.value.value, str):
+        return body_prop(rest, funcparams)
+    if isinstance(s, ast.Return) and s.value is not None:
+        return prop(s.value, funcparams)
+    if isinstance(s, ast.Assign) and len(s.targets) == 1 and isinstance(s.targets[0], ast.Name):
+        v = s.value
+        if isinstance(v, (ast.Compare, ast.BinOp)) and (isinstance(v, ast.Compare) or isinstance(v.op, ast.BitAnd)):
+            return ('letP', s.targets[0].id, prop(v, funcparams), body_prop(rest, funcparams))
+        return ('let', s.targets[0].id, expr(v, funcparams), body_prop(rest, funcparams))
+    raise Unsupported('statement %s in a boolean function' % type(s).__name__)
 
 
 def body(stmts, funcparams=()):
@@ -166,6 +203,12 @@ def coq(e):
         op, a, b = e[1][1], coq(e[1][2]), coq(e[1][3])
         dec = {'<=': 'Rle_dec %s %s', '<': 'Rlt_dec %s %s', '>=': 'Rge_dec %s %s', '>': 'Rgt_dec %s %s', '==': 'Req_EM_T %s %s'}[op] % (a, b)
         return '(if %s then %s else %s)' % (dec, coq(e[2]), coq(e[3]))
+    if k == 'prop':
+        return '(%s %s %s)' % (coq(e[2]), {'<=': '<=', '<': '<', '>=': '>=', '>': '>', '==': '='}[e[1]], coq(e[3]))
+    if k == 'and':
+        return '(%s /\\ %s)' % (coq(e[1]), coq(e[2]))
+    if k == 'letP':
+        return '(let %s := %s in\n   %s)' % (e[1], coq(e[2]), coq(e[3]))
     raise Unsupported('printer ' + k)
 
 
@@ -200,6 +243,13 @@ def ir_eval(e, env):
         op, a, b = e[1][1], ir_eval(e[1][2], env), ir_eval(e[1][3], env)
         c = {'<=': a <= b, '<': a < b, '>=': a >= b, '>': a > b, '==': a == b}[op]
         return ir_eval(e[2] if c else e[3], env)
+    if k == 'prop':
+        a, b = ir_eval(e[2], env), ir_eval(e[3], env)
+        return {'<=': a <= b, '<': a < b, '>=': a >= b, '>': a > b, '==': a == b}[e[1]]
+    if k == 'and':
+        return bool(ir_eval(e[1], env)) and bool(ir_eval(e[2], env))
+    if k == 'letP':
+        return ir_eval(e[3], dict(env, **{e[1]: ir_eval(e[2], env)}))
     raise Unsupported(k)
 
 
@@ -269,6 +319,19 @@ def translate_all():
         if decorators(fn) != ['stvariogram']:
             raise Unsupported('decorators of %s changed' % name)
         res['stmodels.' + name] = {'params': ['lags_0', 'lags_1'] + names[1:], 'ir': body(fn.body, funcparams=('Vx', 'Vt')), 'funcparams': ['Vx', 'Vt']}
+    dt = ast.parse(open(os.path.join(REPO, 'skgstat', 'DirectionalVariogram.py')).read())
+    for name in ('_compass', '_triangle'):
+        fn = find_function(dt, name, cls='DirectionalVariogram')
+        params_of(fn, ['self', 'angles', 'dists'])
+        res['directional.' + name.lstrip('_')] = {'params': ['angles', 'dists'], 'ir': body_prop(fn.body)}
+    # named-statement extraction from _calc_direction_mask_data: the two assignments that define the pair angle
+    fn = find_function(dt, '_calc_direction_mask_data', cls='DirectionalVariogram')
+    pos = [st for st in ast.walk(fn) if isinstance(st, ast.Assign) and len(st.targets) == 1 and isinstance(st.targets[0], ast.Name) and st.targets[0].id == 'pos_angles']
+    ang = [st for st in ast.walk(fn) if isinstance(st, ast.Assign) and len(st.targets) == 1 and isinstance(st.targets[0], ast.Attribute)
+           and isinstance(st.targets[0].value, ast.Name) and st.targets[0].value.id == 'self' and st.targets[0].attr == '_angles' and not isinstance(st.value, ast.Constant)]
+    if len(pos) != 1 or len(ang) != 1:
+        raise Unsupported('_calc_direction_mask_data: expected exactly one assignment to pos_angles and to self._angles (found %d, %d)' % (len(pos), len(ang)))
+    res['directional.pair_angle'] = {'params': ['scalar', 'ydiff', 'euclidean_dist'], 'ir': ('let', 'pos_angles', expr(pos[0].value), expr(ang[0].value))}
     return res
 
 
@@ -299,6 +362,17 @@ def emit(res):
     write_if_changed(os.path.join(OUT, 'STModels.v'), '\n'.join(lines))
 
 
+def emit_directional(res):
+    lines = [HEADER % 'skgstat/DirectionalVariogram.py']
+    used = {'compass': ['azimuth', 'tolerance'], 'triangle': ['azimuth', 'tolerance', 'bandwidth']}
+    for name in ('compass', 'triangle'):
+        v = res['directional.' + name]
+        lines.append('Definition %s (%s : R) (angles dists : R) : Prop :=\n  %s.\n' % (name, ' '.join(used[name]), coq(v['ir'])))
+    v = res['directional.pair_angle']
+    lines.append('Definition pair_angle (scalar ydiff euclidean_dist : R) : R :=\n  %s.\n' % coq(v['ir']))
+    write_if_changed(os.path.join(OUT, 'Direction.v'), '\n'.join(lines))
+
+
 def write_if_changed(path, text):
     if os.path.exists(path) and open(path).read() == text:
         return
@@ -309,6 +383,7 @@ def main():
     try:
         res = translate_all()
         emit(res)
+        emit_directional(res)
     except Unsupported as e:
         print('TRANSLATION-FAILED: %s' % e)
         sys.exit(3)
